@@ -39,17 +39,20 @@ static eav_result_t *e6531 (const char *p, size_t n, bool t) { return is_6531_em
 static int utf8dom (int *r, const char *s, const char *e, bool t)
 { idn_result_t rr = 0; int x = is_utf8_domain (g_ctx, g_act, &rr, s, e, t); *r = (int) rr; return x; }
 #define IDN_MSG(c) idn_result_tostring (c)
+#define IDNRC(c) ((int) (c))
 #define BACKEND "idnkit"
 #elif defined(HAVE_LIBIDN)
 #include <idna.h>
 #define e6531 is_6531_email
 #define utf8dom is_utf8_domain
 #define IDN_MSG(c) idna_strerror (c)
+#define IDNRC(c) ((int) (c) > 0 ? 5000 - (int) (c) : (int) (c))     /* the adapter's positive image of the converter's code */
 #define BACKEND "idn"
 #else
 #define e6531 is_6531_email
 #define utf8dom is_utf8_domain
 #define IDN_MSG(c) idn2_strerror (c)
+#define IDNRC(c) ((int) (c))
 #define BACKEND "idn2"
 #endif
 
@@ -265,7 +268,7 @@ do_email (long *v, int nv)
         int mode = emails[m].mode;
         const char *p = place (b, n, (m + tld) & 1, -1);
         eav_result_t *r = emails[m].f (p, n, tld);
-        int rc = r->rc, idn = r->idn_rc;
+        int rc = r->rc, idn = IDNRC (r->idn_rc);
         int fl = (r->is_ipv4 ? 1 : 0) | (r->is_ipv6 ? 2 : 0) | (r->is_domain ? 4 : 0);
         int eexp = exp, bad = 0;
 #ifdef EAV_EXTRA
@@ -342,7 +345,7 @@ do_email (long *v, int nv)
                     else { const char *dot = strrchr (D, '.'); want = dot ? is_tld (dot + 1, end) : -EEAV_DOMAIN_NOT_FQDN; }
                 } else {
                     want = utf8dom (&widn, D, end, tld);
-                    if (widn != idn && lrc == 0) viol ("email", "composition-idn", mode, ob * 2 + tld, b, n, widn, idn, rc);
+                    if (IDNRC (widn) != idn && lrc == 0) viol ("email", "composition-idn", mode, ob * 2 + tld, b, n, widn, idn, rc);
                 }
             }
             cnt.calls++;
@@ -605,8 +608,8 @@ do_history (long *v, int nv)
             else if ((ret == 1) != (err == 0) || (rc < 0 && err != -rc) || msg == NULL || (ret == 0 && !*msg))
                 hist_viol ("diagnostics inconsistent", v, nsteps, k, ret, err, rc);
             else if (fault != 0 && rc == -EEAV_IDN_ERROR
-                     && (ev->result->idn_rc != fault || fl != 0 || strcmp (msg, IDN_MSG (fault)) != 0))
-                hist_viol ("IDN failure not reported with the library's message", v, nsteps, k, fault, ev->result->idn_rc, fl);
+                     && (IDNRC (ev->result->idn_rc) != fault || fl != 0 || strcmp (msg, idn2_strerror (fault)) != 0))
+                hist_viol ("IDN failure not reported with the library's message", v, nsteps, k, fault, IDNRC (ev->result->idn_rc), fl);
 #ifdef VERIF_WRAP
             /* C19: the converter was consulted and failed (with or without an output buffer): the address must be
              * rejected as an IDN error, whatever the buffer holds */
@@ -867,7 +870,7 @@ run_dom (int m, int tld, const unsigned char *dom, int n, int *rc, int *fl, int 
     for (int i = 0; i < n; i++) buf[2 + i] = dom[i];
     p = place (buf, n + 2, tld, -1);
     r = emails[m].f (p, n + 2, tld);
-    *rc = r->rc; *idn = r->idn_rc;
+    *rc = r->rc; *idn = IDNRC (r->idn_rc);
     *fl = (r->is_ipv4 ? 1 : 0) | (r->is_ipv6 ? 2 : 0) | (r->is_domain ? 4 : 0);
     eav_result_free (r);
     unplace ();
@@ -966,7 +969,7 @@ do_record (long *v, int nv, int local_only)
         eav_result_t *r = emails[m].f (p, n, tld);
         int fl = (r->is_ipv4 ? 1 : 0) | (r->is_ipv6 ? 2 : 0) | (r->is_domain ? 4 : 0);
         unplace ();
-        email_event (f_trace, ob, emails[m].mode, tld, b, n, r->rc, fl, r->idn_rc, 0, 0);
+        email_event (f_trace, ob, emails[m].mode, tld, b, n, r->rc, fl, IDNRC (r->idn_rc), 0, 0);
         eav_result_free (r);
         cnt.calls++; cnt.checked++;
     }
@@ -1040,7 +1043,7 @@ hist_is_email (FILE *f, eav_t *ev, int confirmed, int idx, int k)
     fprintf (f, "{\"e\":\"is_email\",\"in\":");
     put_ubytes (f, a, n);
     fprintf (f, ",\"ret\":%d,\"err\":%d,\"rc\":%d,\"fl\":%d,\"idn\":%d,\"msg\":", ret, ev->errcode, ev->result->rc,
-             res_flags (ev->result), (int) ev->result->idn_rc);
+             res_flags (ev->result), IDNRC (ev->result->idn_rc));
     put_cstr_bytes (f, msg);
     fprintf (f, ",\"msgidn\":%d", (msg && ev->result->idn_rc != 0 && strcmp (msg, IDN_MSG (ev->result->idn_rc)) == 0) ? 1 : 0);
     /* the same call on a fresh object with the same public settings and the confirmed mode */
